@@ -134,7 +134,7 @@ if __name__ == '__main__':
     elif cmd == 'runall':
         tier = sys.argv[2] if len(sys.argv) > 2 else 'quick'
         for name in sorted(os.listdir(SEEDED)):
-            if os.path.isdir(os.path.join(SEEDED, name)):
+            if os.path.isdir(os.path.join(SEEDED, name)) and name != 'retired':
                 pid = name.split('-')[0]
                 if os.path.exists(os.path.join(ROOT, 'tv', 'props', pid.lower() + '.py')):
                     do_run(name, tier)
